@@ -22,9 +22,9 @@ type crashHistory struct {
 	// directories fail with EXDEV)
 	CrossDevice bool
 	Name        string
-	Pre     []op // executed normally
-	Last    op   // executed with the crash
-	Missing bool // configured directory does not exist at the start
+	Pre         []op // executed normally
+	Last        op   // executed with the crash
+	Missing     bool // configured directory does not exist at the start
 }
 
 func crashHistories(thorough bool) []crashHistory {
@@ -122,13 +122,17 @@ func RunC20(c *engine.Ctx) {
 			}
 			for p := 0; p <= maxP; p++ {
 				k, p, s := k, p, s
-				c.Case(func() any { return map[string]any{"history": h.Name, "crash-before-step": k, "step": s.Kind, "bytes-of-write-performed": p} }, func(t *engine.T) *engine.Violation {
+				c.Case(func() any {
+					return map[string]any{"history": h.Name, "crash-before-step": k, "step": s.Kind, "bytes-of-write-performed": p}
+				}, func(t *engine.T) *engine.Violation {
 					return crashCase(t, h, k, p)
 				})
 			}
 		}
 		// crash after the last step = completed store
-		c.Case(func() any { return map[string]any{"history": h.Name, "crash-before-step": len(log), "step": "none (store completed)"} }, func(t *engine.T) *engine.Violation {
+		c.Case(func() any {
+			return map[string]any{"history": h.Name, "crash-before-step": len(log), "step": "none (store completed)"}
+		}, func(t *engine.T) *engine.Violation {
 			return crashCase(t, h, len(log), 0)
 		})
 	}
